@@ -13,7 +13,8 @@ use vcore::report::*;
 #[derive(Clone, Debug)]
 enum Reply {
     /// uid hex (None: absent), application list (None: absent), TLV container present
-    Status { uid: Option<String>, apps: Option<Vec<Option<String>>>, tlv: bool },
+    /// `rich`: accompanied by every other field a real terminal reports with a card
+    Status { uid: Option<String>, apps: Option<Vec<Option<String>>>, tlv: bool, rich: bool },
     Abort(u8),
 }
 
@@ -80,9 +81,9 @@ fn run_case(reply: &Reply, inter: usize, acc: &mut Acc) -> (OpResult, OpResult) 
         }
         match &rp {
             Reply::Abort(c) => s.push(r.abort(*c)),
-            Reply::Status { uid, apps, tlv } => {
+            Reply::Status { uid, apps, tlv, rich } => {
                 let a: Option<Vec<Option<&str>>> = apps.as_ref().map(|l| l.iter().map(|x| x.as_deref()).collect());
-                s.push(r.card_status(uid.as_deref(), a.as_deref(), *tlv))
+                s.push(r.card_status_ex(uid.as_deref(), a.as_deref(), *tlv, *rich))
             }
         }
         Some(s)
@@ -155,14 +156,19 @@ pub fn run(run: &RunInfo) -> Summary {
         Some(vec![None, app("a0000000043060")]),
     ];
     for u in &uids {
-        replies.push(Reply::Status { uid: u.clone(), apps: None, tlv: true });
+        replies.push(Reply::Status { uid: u.clone(), apps: None, tlv: true, rich: false });
     }
     for l in &lists[1..] {
         for u in [None, Some("0000000000081ca72f".to_string()), Some("04a1b2c3".to_string()), Some("00000004a1b2c3d4".to_string())] {
-            replies.push(Reply::Status { uid: u, apps: l.clone(), tlv: true });
+            replies.push(Reply::Status { uid: u.clone(), apps: l.clone(), tlv: true, rich: false });
+            replies.push(Reply::Status { uid: u, apps: l.clone(), tlv: true, rich: true });
         }
     }
-    replies.push(Reply::Status { uid: None, apps: None, tlv: false });
+    for u in ["0000000000081ca72f", "04a1b2c3", "00000004a1b2c3d4", "0000000000000000005a"] {
+        replies.push(Reply::Status { uid: Some(u.to_string()), apps: None, tlv: true, rich: true });
+    }
+    replies.push(Reply::Status { uid: None, apps: None, tlv: false, rich: false });
+    replies.push(Reply::Status { uid: None, apps: None, tlv: false, rich: true });
     for c in 0..=255u8 {
         replies.push(Reply::Abort(c));
     }
@@ -240,7 +246,7 @@ pub fn run(run: &RunInfo) -> Summary {
         transitions: acc.get("transitions"),
         traces_validated: execs,
         distinct_nontrivial: acc.set_len("outcomes"),
-        rule: format!("real Feig::read_card (called twice) against the simulated terminal for {} replies: UID absent or of 0..=20 bytes with every count of leading zero bytes and two tail patterns (digits only / hex letters); application list absent, one entry with id, two with ids, one without id, one without followed by one with id, combined with four UIDs; status without TLV container; all 256 abort codes; each preceded by 0, 1 and 2 intermediate statuses. Oracle: the reference function of the statement; both presentations and all intermediate counts must agree", replies.len()),
+        rule: format!("real Feig::read_card (called twice) against the simulated terminal for {} replies: UID absent or of 0..=20 bytes with every count of leading zero bytes and two tail patterns (digits only / hex letters); application list absent, one entry with id, two with ids, one without id, one without followed by one with id, combined with four UIDs; status without TLV container; replies accompanied by every other field a terminal reports with a card (track data, 12-digit pre-authorisation limit, 20-digit card number, ATS/ATQA/SAK ...); all 256 abort codes; each preceded by 0, 1 and 2 intermediate statuses. Oracle: the reference function of the statement; both presentations and all intermediate counts must agree", replies.len()),
         exhaustive: true,
         required_witnesses: vec![
             "bank cards classified".into(),
